@@ -27,8 +27,10 @@ def ring_ccw(v, ro, r):
 
 
 def _nf_body(self, A, voff, PO, pooff, pon, RO, rooff, r):
-    ccw = ring_area2(A, voff + celli(RO, rooff + r), voff + celli(RO, rooff + r + 1)) >= SFloat.const(0.0)
-    return ccw != IS_SHELL(PO, pooff, pon, r)
+    a2 = ring_area2(A, voff + celli(RO, rooff + r), voff + celli(RO, rooff + r + 1))
+    ccw = a2 >= SFloat.const(0.0)
+    # a ring of zero area has no orientation and is never flipped
+    return And(ccw != IS_SHELL(PO, pooff, pon, r), a2 != SFloat.const(0.0))
 
 
 NEEDS_FLIP = RecSpec('NEEDS_FLIP', [AV, 'int', AO, 'int', 'int', AO, 'int', 'int'], 'bool', _nf_body, quantified=True)
@@ -67,10 +69,10 @@ def register(reg):
         v, po, ro = c.values, c.polygon_offsets, c.ring_offsets
         return [('unit-stride', And(v.stride == 1, po.stride == 1, ro.stride == 1)),
                 ('at-least-one-offset', And(ro.n >= 1, po.n >= 1))] + rings_ok(ro, v) + [
-            # every polygon's first-ring index is a ring index (FALSE for a trailing empty / missing polygon:
-            # then polygon_offsets[k] == number of rings and the store below is out of bounds)
+            # a polygon's first-ring index is a ring index, or the number of rings for trailing polygons
+            # without rings (empty / missing elements)
             ('polygon-offsets-index-rings', forall('int', lambda k: Implies(
-                And(k >= 0, k < po.n - 1), And(po[k] >= 0, po[k] < ro.n - 1)))),
+                And(k >= 0, k < po.n - 1), And(po[k] >= 0, po[k] <= ro.n - 1)))),
         ]
 
     def ens(c, r):
@@ -92,6 +94,9 @@ def register(reg):
                               c.expected_ccw.n == c.num_rings)),
                 ('is-ccw', forall('int', lambda k: Implies(
                     And(k >= 0, k < i), c.is_ccw[k] == Ite(ring_ccw(v, ro, k), SFloat.const(1.0), SFloat.const(0.0))))),
+                ('has-area', forall('int', lambda k: Implies(
+                    And(k >= 0, k < i), c.has_area[k] == (ring_area2(v.A, v.off + ro[k], v.off + ro[k + 1]) != SFloat.const(0.0))))),
+                ('lengths', And(c.has_area.n == c.num_rings)),
                 ('expected', forall('int', lambda k: Implies(And(k >= 0, k < c.num_rings),
                                                             c.expected_ccw[k] == is_shell(po, k)))),
                 ('values-untouched', forall('int', lambda t: Implies(And(t >= 0, t < v.n), cur[t] == v[t])))]
